@@ -1,0 +1,111 @@
+//go:build verif
+
+// Contracts for package header, checked by /verif/govc (contract-based
+// deductive verification). This file is compiled only with -tags verif; the
+// //@ blocks are the contracts, the Go functions below them are specification
+// functions and lemma clients.
+
+package header
+
+// ---- contract vocabulary (evaluated symbolically by govc, never executed) ----
+
+func old[T any](x T) T                                  { return x }
+func implies(a, b bool) bool                            { return !a || b }
+func forall[T any](f func(T) bool) bool                 { return true }
+func elems[T any](s []T, r ...int) bool                 { return true }
+func sliceIs[T any](s, base []T, lo, hi, max int) bool  { return true }
+
+//@ func Encode
+//@   props C47
+//@   requires cap(b) >= 16
+//@   ensures[shape]    sliceIs(result, b, 0, 16, cap(b))
+//@   ensures[vertype]  result[0] == v<<4 | uint8(t)&0x0f
+//@   ensures[subtype]  result[1] == uint8(st)
+//@   ensures[reserved] result[2] == 0 && result[3] == 0
+//@   ensures[index]    result[4] == uint8(ri>>24) && result[5] == uint8(ri>>16) && result[6] == uint8(ri>>8) && result[7] == uint8(ri)
+//@   ensures[counter]  result[8] == uint8(c>>56) && result[9] == uint8(c>>48) && result[10] == uint8(c>>40) && result[11] == uint8(c>>32)
+//@   ensures[counter2] result[12] == uint8(c>>24) && result[13] == uint8(c>>16) && result[14] == uint8(c>>8) && result[15] == uint8(c)
+//@   assigns elems(b, 0, 16)
+
+//@ func (*H).Encode
+//@   props C47
+//@   requires h != nil && cap(b) >= 16
+//@   ensures[noerr]    result1 == nil
+//@   ensures[shape]    sliceIs(result0, b, 0, 16, cap(b))
+//@   ensures[bytes]    specEncoded(result0, h.Version, h.Type, h.Subtype, h.RemoteIndex, h.MessageCounter)
+//@   assigns elems(b, 0, 16)
+
+//@ func (*H).Parse
+//@   props C47
+//@   requires h != nil
+//@   ensures[short]    implies(len(b) < 16, result == ErrHeaderTooShort && unchangedH(h, old(*h)))
+//@   ensures[ok]       implies(len(b) >= 16, result == nil)
+//@   ensures[version]  implies(len(b) >= 16, h.Version == b[0]>>4)
+//@   ensures[type]     implies(len(b) >= 16, h.Type == MessageType(b[0]&0x0f))
+//@   ensures[subtype]  implies(len(b) >= 16, h.Subtype == MessageSubType(b[1]))
+//@   ensures[reserved] implies(len(b) >= 16, h.Reserved == uint16(b[2])<<8|uint16(b[3]))
+//@   ensures[index]    implies(len(b) >= 16, h.RemoteIndex == uint32(b[4])<<24|uint32(b[5])<<16|uint32(b[6])<<8|uint32(b[7]))
+//@   ensures[counter]  implies(len(b) >= 16, h.MessageCounter == uint64(b[8])<<56|uint64(b[9])<<48|uint64(b[10])<<40|uint64(b[11])<<32|uint64(b[12])<<24|uint64(b[13])<<16|uint64(b[14])<<8|uint64(b[15]))
+//@   assigns *h
+
+//@ func IsValidSubType
+//@   props C47
+//@   ensures[table] result == specValidSubType(t, s)
+//@   assigns nothing
+
+//@ func (*H).IsValidSubType
+//@   props C47
+//@   requires h != nil
+//@   ensures[table] result == specValidSubType(h.Type, h.Subtype)
+//@   assigns nothing
+
+//@ func NewHeader
+//@   props C47
+//@   ensures[short] implies(len(b) < 16, result0 == nil && result1 != nil)
+//@   ensures[ok]    implies(len(b) >= 16, result1 == nil && result0 != nil && result0.Version == b[0]>>4 && result0.Type == MessageType(b[0]&0x0f) && result0.Subtype == MessageSubType(b[1]))
+//@   ensures[ok2]   implies(len(b) >= 16, result0.RemoteIndex == uint32(b[4])<<24|uint32(b[5])<<16|uint32(b[6])<<8|uint32(b[7]))
+//@   assigns nothing
+
+//@ func verifLemmaHeaderRoundTrip
+//@   props C47
+//@   requires cap(b) >= 16 && h != nil && v < 16 && t < 16
+//@   ensures[roundtrip] result && h.Version == v && h.Type == t && h.Subtype == st && h.Reserved == 0 && h.RemoteIndex == ri && h.MessageCounter == c
+
+//@ func specEncoded
+//@   pure
+//@ func specValidSubType
+//@   pure
+//@ func unchangedH
+//@   pure
+
+// specEncoded: the 16 bytes of e are the wire encoding of the given fields.
+func specEncoded(e []byte, v uint8, t MessageType, st MessageSubType, ri uint32, c uint64) bool {
+	return e[0] == v<<4|uint8(t)&0x0f && e[1] == uint8(st) && e[2] == 0 && e[3] == 0 &&
+		e[4] == uint8(ri>>24) && e[5] == uint8(ri>>16) && e[6] == uint8(ri>>8) && e[7] == uint8(ri) &&
+		e[8] == uint8(c>>56) && e[9] == uint8(c>>48) && e[10] == uint8(c>>40) && e[11] == uint8(c>>32) &&
+		e[12] == uint8(c>>24) && e[13] == uint8(c>>16) && e[14] == uint8(c>>8) && e[15] == uint8(c)
+}
+
+// specValidSubType is the documented table of (type, subtype) combinations,
+// written out from the protocol description rather than from the code.
+func specValidSubType(t MessageType, s MessageSubType) bool {
+	return (t == 0 && s == 0) || // handshake / ix_psk0
+		(t == 1 && (s == 0 || s == 1)) || // message / none, relay
+		(t == 2 && s == 0) || // recvError
+		(t == 3 && s == 0) || // lightHouse
+		(t == 4 && (s == 0 || s == 1)) || // test / request, reply
+		(t == 5 && s == 0) || // closeTunnel
+		(t == 6 && s == 0) // control
+}
+
+func unchangedH(h *H, o H) bool {
+	return h.Version == o.Version && h.Type == o.Type && h.Subtype == o.Subtype && h.Reserved == o.Reserved &&
+		h.RemoteIndex == o.RemoteIndex && h.MessageCounter == o.MessageCounter
+}
+
+// verifLemmaHeaderRoundTrip: Parse(Encode(fields)) gives the fields back.
+// Verified modularly: only the contracts of Encode and Parse are used.
+func verifLemmaHeaderRoundTrip(b []byte, h *H, v uint8, t MessageType, st MessageSubType, ri uint32, c uint64) bool {
+	e := Encode(b, v, t, st, ri, c)
+	return h.Parse(e) == nil
+}
